@@ -61,3 +61,291 @@ Proof.
     { eapply Forall_impl; [|exact Hrest]. intros b. apply good3_shape. exact Hs1. }
     exists s2. split; [exact E2|]. split; [exact HJ2|eapply shape2_trans; eassumption].
 Qed.
+
+(* ---------- sorting keeps the elements ---------- *)
+Lemma insert_by_in : forall {A K} (lt : K -> K -> bool) (x : K * A) l y, In y (insert_by lt x l) -> y = x \/ In y l.
+Proof.
+  intros A K lt x l. induction l as [|z l IH]; intros y H; cbn in H.
+  - destruct H as [<-|[]]. left. reflexivity.
+  - destruct (lt (fst z) (fst x)).
+    + destruct H as [<-|H]; [right; left; reflexivity|]. destruct (IH y H) as [->|Hin]; [left; reflexivity|right; right; exact Hin].
+    + destruct H as [<-|H]; [left; reflexivity|right; exact H].
+Qed.
+
+Lemma sort_by_in : forall {A K} (lt : K -> K -> bool) (l : list (K * A)) x, In x (sort_by lt l) -> In x (map snd l).
+Proof.
+  intros A K lt l x H. unfold sort_by in H. apply in_map_iff in H. destruct H as [y [<- Hy]].
+  apply in_map. induction l as [|z l IH]; cbn in Hy; [contradiction|].
+  destruct (insert_by_in lt z _ y Hy) as [->|Hin]; [left; reflexivity|right; apply IH; exact Hin].
+Qed.
+
+(* ---------- migrations 26, 30, 40 ---------- *)
+Section Sections.
+  Variable s : tds.
+  Variable vr : sec_variant.
+  Variable views : list (val * record).
+  Hypothesis Hsec : typed_table T_SECTIONS s.
+  Hypothesis Hfld : typed_table T_FIELDS s.
+  Hypothesis Htab : has_table T_TABLES s.
+  Hypothesis Hcols : forallb col_pre_sec (recs T_COLUMNS s) = true.
+
+  Lemma col_filter_ok : forall table : record,
+    exists tcols, filterM (fun col => bind (fld (zs "parentId") col) (fun p =>
+                                      if negb (py_eq (rid_val (fst table)) p) then Ok false
+                                      else bind (fld (zs "colId") col) is_visible_column)) (recs T_COLUMNS s) = Ok tcols /\
+                  incl tcols (recs T_COLUMNS s).
+  Proof.
+    intros table. apply filterM_ok. apply Forall_forall. intros c Hc.
+    pose proof (proj1 (forallb_forall _ _) Hcols c Hc) as Q. unfold col_pre_sec, has_fld in Q. split_pre Q.
+    destruct (fld (zs "parentId") c) as [p|]; [|discriminate Q]. cbn [bind].
+    destruct (negb (py_eq (rid_val (fst table)) p)); [eauto|].
+    destruct (fld (zs "colId") c) as [ci|]; [|discriminate P0]. destruct ci; try discriminate P0. cbn. eauto.
+  Qed.
+
+  Lemma keyed_ok : forall tcols, incl tcols (recs T_COLUMNS s) ->
+    exists keyed, mapM (fun col => bind (fld (zs "parentPos") col) (fun pp => bind (val_num pp) (fun k => Ok (k, (col, pp))))) tcols = Ok keyed.
+  Proof.
+    intros tcols I. destruct (mapM_ok (fun col => bind (fld (zs "parentPos") col) (fun pp => bind (val_num pp) (fun k => Ok (k, (col, pp))))) tcols) as [k [E _]]; [|eauto].
+    apply Forall_forall. intros c Hc. pose proof (proj1 (forallb_forall _ _) Hcols c (I c Hc)) as Q.
+    unfold col_pre_sec in Q. split_pre Q.
+    destruct (fld (zs "parentPos") c) as [pp|]; [|discriminate P]. cbn [bind]. destruct (val_num pp); [|discriminate P]. cbn. eauto.
+  Qed.
+
+  Lemma sec_table_ok : forall st table,
+    In table (recs T_TABLES s) -> (exists w, sv_wanted vr views table = Ok w) -> Forall (good3 s) (snd st) ->
+    exists st', sec_table vr views (recs T_COLUMNS s) st table = Ok st' /\ Forall (good3 s) (snd st').
+  Proof.
+    intros [new_id acc] table Hin [w Hw] Hacc. unfold sec_table. rewrite Hw. cbn [bind].
+    destruct w as [title|]; [|eexists; split; [reflexivity|exact Hacc]].
+    destruct (col_filter_ok table) as [tcols [-> I]]. cbn [bind].
+    destruct (keyed_ok tcols I) as [keyed ->]. cbn [bind].
+    eexists. split; [reflexivity|]. cbn [snd]. apply Forall_app. split; [exact Hacc|].
+    constructor; [exact Hsec|]. constructor; [split; [exact Htab|apply recs_ids_in_rows; exact Hin]|].
+    constructor; [|constructor]. split; [exact Hfld|].
+    repeat (constructor; [cbn [snd]; rewrite !map_length; reflexivity|]). constructor.
+  Qed.
+
+  Lemma sec_loop_ok : forall ts st,
+    (forall t, In t ts -> In t (recs T_TABLES s)) ->
+    Forall (fun t => exists w, sv_wanted vr views t = Ok w) ts -> Forall (good3 s) (snd st) ->
+    exists st', sec_loop vr views (recs T_COLUMNS s) ts st = Ok st' /\ Forall (good3 s) (snd st').
+  Proof.
+    induction ts as [|t ts IH]; intros st Hsub Hw Hacc; cbn [sec_loop]; [eauto|].
+    inversion Hw as [|? ? Hwt Hwrest]; subst. destruct (sec_table_ok st t (Hsub t (or_introl eq_refl)) Hwt Hacc) as [st1 [-> Hst1]].
+    cbn [bind]. apply IH; auto. intros t' Ht'. apply Hsub. right. exact Ht'.
+  Qed.
+End Sections.
+
+Ltac step_ok2 tac :=
+  match goal with |- exists acts s', bind ?A _ = _ /\ _ =>
+    let H := fresh "Hs" in assert (H : exists r, A = Ok r) by tac; destruct H as [? ->]; cbn [bind] end.
+
+Lemma sections_total : forall s vr need_views,
+  pre_sec_common s = true -> (need_views = true -> has_table T_VIEWS s) ->
+  Forall (good3 s) (sv_pre vr) ->
+  Forall (fun t => exists w, sv_wanted vr (fold_left (fun acc v => pd_set (rid_val (fst v)) v acc)
+                                             (if need_views then recs T_VIEWS s else []) []) t = Ok w) (recs T_TABLES s) ->
+  exists acts s', sections_migration vr need_views s = Ok acts /\ tds_apply_all acts s = Ok s' /\ J s'.
+Proof.
+  intros s vr need_views H Hv Hpre Hw. unfold pre_sec_common in H. split_pre H.
+  pose proof (J_b_sound _ H) as HJ. pose proof (has_table_b_sound _ _ P5) as Ht. pose proof (has_table_b_sound _ _ P4) as Hc.
+  pose proof (typed_table_b_sound _ _ P3) as Hsec. pose proof (typed_table_b_sound _ _ P2) as Hfld.
+  unfold sections_migration. rewrite (table_records_ok _ _ Ht), (table_records_ok _ _ Hc). cbn [bind].
+  assert (Hvr : (if need_views then table_records T_VIEWS s else Ok []) = Ok (if need_views then recs T_VIEWS s else [])).
+  { destruct need_views; [apply table_records_ok; auto|reflexivity]. }
+  rewrite Hvr. cbn [bind]. cbv zeta.
+  destruct (next_id_ok _ P1) as [nid ->]. cbn [bind].
+  match goal with |- exists acts s', bind ?A _ = _ /\ _ =>
+    assert (Hk : exists keyed, A = Ok keyed /\ forall t, In t (map snd keyed) -> In t (recs T_TABLES s)) end.
+  { assert (G : forall l, (forall t, In t l -> In t (recs T_TABLES s)) ->
+                exists keyed, mapM (fun t : record => bind (fld (zs "tableId") t) (fun n => bind (as_str TypeErr n) (fun n0 => Ok (n0, t)))) l = Ok keyed /\
+                              forall t, In t (map snd keyed) -> In t (recs T_TABLES s)).
+    { induction l as [|t l IH]; intros Hsub; cbn [mapM]; [exists []; split; [reflexivity|intros ? []]|].
+      pose proof (proj1 (forallb_forall _ _) P0 t (Hsub t (or_introl eq_refl))) as Q. cbv beta in Q.
+      destruct (fld (zs "tableId") t) as [n|]; [|discriminate Q]. destruct n; try discriminate Q. cbn [bind as_str].
+      destruct IH as [k [-> Hk]]; [intros; apply Hsub; right; assumption|]. cbn [bind].
+      eexists. split; [reflexivity|]. intros t0 [<-|Hin]; [apply Hsub; left; reflexivity|apply Hk; exact Hin]. }
+    apply G. auto. }
+  destruct Hk as [keyed [-> Hkeyed]]. cbn [bind].
+  match goal with |- exists acts s', bind ?A _ = _ /\ _ =>
+    assert (Hl : exists st, A = Ok st /\ Forall (good3 s) (snd st)) end.
+  { apply sec_loop_ok; auto.
+    - intros t Hin. apply Hkeyed. eapply sort_by_in. exact Hin.
+    - apply Forall_forall. intros t Hin. rewrite Forall_forall in Hw. apply Hw. apply Hkeyed. eapply sort_by_in. exact Hin. }
+  destruct Hl as [st [-> Hacc]]. cbn [bind].
+  destruct (good3_all (snd st) s HJ Hacc) as [s' [E [HJ' _]]]. eauto.
+Qed.
+
+Lemma pre26_sound : forall s, pre26 s = true -> exists acts s', m26 s = Ok acts /\ tds_apply_all acts s = Ok s' /\ J s'.
+Proof.
+  intros s H. unfold pre26 in H. split_pre H. pose proof H as Hc. unfold pre_sec_common in Hc. split_pre Hc.
+  apply sections_total; [exact H|intros _; apply has_table_b_sound; exact P1| |].
+  - cbn [v26 sv_pre]. constructor; [|constructor]. cbn [good3 good2 good add_column].
+    split; [apply has_table_b_sound; exact P8|apply mkci_typed].
+  - apply Forall_forall. intros t Hin. cbn [v26 sv_wanted].
+    pose proof (proj1 (forallb_forall _ _) P0 t Hin) as Q. cbv beta in Q.
+    destruct (fld (zs "primaryViewId") t) as [pv|]; [|discriminate Q]. cbn [bind]. unfold hash_key. rewrite Q. cbn [bind].
+    match goal with |- context [match ?X with Some _ => _ | None => _ end] => destruct X as [ov|] eqn:G end; [|eauto].
+    destruct (val_truthy pv); [|eauto].
+    assert (Hn : has_fld (zs "name") ov = true).
+    { eapply (pd_get_forall (fun r => has_fld (zs "name") r = true)); [|exact G].
+      apply (by_id_forall (fun r => has_fld (zs "name") r = true)); [|constructor]. apply Forall_forall. intros v Hv2. exact (proj1 (forallb_forall _ _) P v Hv2). }
+    unfold has_fld in Hn. destruct (fld (zs "name") ov); [|discriminate Hn]. cbn. eauto.
+Qed.
+
+Lemma pre30_sound : forall s, pre30 s = true -> exists acts s', m30 s = Ok acts /\ tds_apply_all acts s = Ok s' /\ J s'.
+Proof.
+  intros s H. unfold pre30 in H. split_pre H.
+  apply sections_total; [exact H|discriminate|constructor|].
+  apply Forall_forall. intros t Hin. cbn [v30 sv_wanted].
+  pose proof (proj1 (forallb_forall _ _) P t Hin) as Q. cbv beta in Q. unfold has_fld in Q.
+  destruct (fld (zs "summarySourceTable") t); [|discriminate Q]. cbn. eauto.
+Qed.
+
+Lemma pre40_sound : forall s, pre40 s = true -> exists acts s', m40 s = Ok acts /\ tds_apply_all acts s = Ok s' /\ J s'.
+Proof.
+  intros s H. unfold pre40 in H. split_pre H. pose proof H as Hc. unfold pre_sec_common in Hc. split_pre Hc.
+  apply sections_total; [exact H|discriminate| |].
+  - cbn [v40 sv_pre]. constructor; [|constructor]. cbn [good3 good2 good add_column].
+    split; [apply has_table_b_sound; exact P6|apply mkci_typed].
+  - apply Forall_forall. intros t Hin. cbn [v40 sv_wanted].
+    pose proof (proj1 (forallb_forall _ _) P t Hin) as Q. cbv beta in Q. apply andb_prop in Q. destruct Q as [Q1 Q2]. unfold has_fld in Q1, Q2.
+    destruct (fld (zs "rawViewSectionRef") t) as [raw|]; [|discriminate Q1]. cbn [bind].
+    destruct (negb (val_truthy raw)); [eauto|].
+    destruct (fld (zs "summarySourceTable") t); [|discriminate Q2]. cbn. eauto.
+Qed.
+
+(* ---------- a freshly added table is fully typed ---------- *)
+Lemma in_lookup_some : forall {V} k (v : V) m, In (k, v) m -> exists v', lookup k m = Some v'.
+Proof.
+  intros V k v m. induction m as [|[k' x] m IH]; intros H; [contradiction|]. cbn.
+  destruct (seqb k k') eqn:Q; [eauto|]. destruct H as [E|H]; [injection E as E1 E2; subst k'; rewrite seqb_refl in Q; discriminate Q|apply IH; exact H].
+Qed.
+
+Lemma schema_of_cols_typed : forall cols acc m,
+  forallb ci_wf_b cols = true -> Forall (fun kv : str * colinfo => ci_typed (snd kv)) acc ->
+  schema_of_cols cols acc = Ok m -> Forall (fun kv : str * colinfo => ci_typed (snd kv)) m.
+Proof.
+  induction cols as [|ci cols IH]; intros acc m Hwf Hacc H; cbn in H; [injection H as <-; exact Hacc|].
+  cbn in Hwf. apply andb_prop in Hwf. destruct Hwf as [Hci Hrest]. unfold ci_wf_b in Hci. apply andb_prop in Hci. destruct Hci as [Hty _].
+  destruct (lookup (zs "id") ci) as [v|]; [|discriminate]. destruct v; try discriminate.
+  eapply IH; [exact Hrest| |exact H]. apply forall_dset; [exact Hacc|]. intros k'. cbn [snd]. apply ci_typed_b_sound. exact Hty.
+Qed.
+
+Lemma add_table_typed : forall t cols s s', forallb ci_wf_b cols = true ->
+  tds_apply (AddTable t cols) s = Ok s' -> typed_table t s'.
+Proof.
+  intros t cols s s' Hwf H. cbn [tds_apply schema_step data_step] in H.
+  destruct (schema_of_cols cols []) as [m|] eqn:Em; cbn [bind] in H; [|discriminate]. injection H as <-.
+  unfold typed_table. cbn [t_data t_schema]. rewrite !lookup_dset_same.
+  eexists _, _, m. split; [reflexivity|]. split; [reflexivity|].
+  pose proof (schema_of_cols_typed cols [] m Hwf (Forall_nil _) Em) as Hty.
+  apply Forall_forall. intros cv Hin. apply in_map_iff in Hin. destruct Hin as [[k ci] [<- Hk]]. cbn [fst].
+  destruct (in_lookup_some k ci m Hk) as [ci' Hl]. exists ci'. split; [exact Hl|].
+  rewrite Forall_forall in Hty. exact (Hty _ (lookup_in _ _ _ Hl)).
+Qed.
+
+(* ---------- migration 25 ---------- *)
+Lemma pre25_sound : forall s, pre25 s = true -> exists acts s', m25 s = Ok acts /\ tds_apply_all acts s = Ok s' /\ J s'.
+Proof.
+  intros s H. unfold pre25 in H. split_pre H. pose proof (J_b_sound _ H) as HJ. pose proof (has_table_b_sound _ _ P2) as Hf.
+  pose proof (col_ok_b_sound _ _ _ _ P1) as C1. pose proof (col_ok_b_sound _ _ _ _ P0) as C2. pose proof (col_ok_b_sound _ _ _ _ P) as C3.
+  unfold m25. rewrite (table_records_ok _ _ Hf). cbn [bind].
+  match goal with |- exists acts s', bind ?A _ = _ /\ _ => assert (Hr : exists rows, A = Ok rows) end.
+  { apply mapM_some. unfold col_ok in *. rewrite Forall_forall in *. intros f Hin.
+    destruct (C1 f Hin) as [fl [-> _]]. cbn [bind]. destruct (negb (val_truthy fl)); [eauto|].
+    destruct (C2 f Hin) as [cr [-> _]]. destruct (C3 f Hin) as [p [-> _]]. cbn. eauto. }
+  destruct Hr as [rows ->]. cbn [bind]. cbv zeta.
+  match goal with |- context [AddTable T_FILTERS ?cols] =>
+    destruct (add_table_step T_FILTERS cols s HJ eq_refl) as [s1 [E1 [HJ1 _]]];
+    pose proof (add_table_typed T_FILTERS cols s s1 eq_refl E1) as Hty1 end.
+  destruct (concat rows) as [|r0 rest].
+  - eexists. exists s1. split; [reflexivity|]. cbn [tds_apply_all]. rewrite E1. cbn [bind]. auto.
+  - edestruct (bulk_add_step T_FILTERS) as [s2 [E2 [HJ2 _]]]; [exact HJ1|exact Hty1| |].
+    2: { eexists. exists s2. split; [reflexivity|]. cbn [tds_apply_all]. rewrite E1. cbn [bind tds_apply]. rewrite E2. cbn [bind]. auto. }
+    repeat (constructor; [cbn [snd]; rewrite !map_length; reflexivity|]). constructor.
+Qed.
+
+(* ---------- migration 28: AddColumn, then ModifyColumn on columns the schema has ---------- *)
+Definition modifies_known (s : tds) (a : action) : Prop :=
+  exists t c ci, a = ModifyColumn t c ci /\ schema_has t c s = true.
+
+Lemma has_dset : forall {V} u k (v : V) m, has u m = true -> has u (dset k v m) = true.
+Proof.
+  intros V u k v m H. unfold has in *. rewrite lookup_dset_cases. destruct (seqb u k); [reflexivity|exact H].
+Qed.
+
+Lemma modify_step : forall t c ci s, J s -> schema_has t c s = true ->
+  exists s', tds_apply (ModifyColumn t c ci) s = Ok s' /\ J s' /\
+             (forall t' c', schema_has t' c' s = true -> schema_has t' c' s' = true).
+Proof.
+  intros t c ci s HJ H. unfold schema_has in H.
+  destruct (lookup t (t_schema s)) as [cols|] eqn:Es; [|discriminate]. unfold has in H.
+  destruct (lookup c cols) as [old|] eqn:Ec; [|discriminate].
+  cbn [tds_apply schema_step data_step]. rewrite Es, Ec. cbn [bind].
+  eexists. split; [reflexivity|]. split.
+  - intros u rows cols0 Hu. cbn [t_data t_schema] in *. destruct (HJ _ _ _ Hu) as [Hw [sc Hsc]]. split; [exact Hw|].
+    rewrite lookup_dset_cases. destruct (seqb u t); eauto.
+  - intros t' c' H'. unfold schema_has in *. cbn [t_schema]. rewrite lookup_dset_cases. destruct (seqb t' t) eqn:Q.
+    + apply seqb_eq in Q. subst t'. rewrite Es in H'. apply has_dset. exact H'.
+    + exact H'.
+Qed.
+
+Lemma modify_all : forall acts s, J s -> Forall (modifies_known s) acts -> exists s', tds_apply_all acts s = Ok s' /\ J s'.
+Proof.
+  induction acts as [|a acts IH]; intros s HJ HF; cbn [tds_apply_all]; [eauto|].
+  inversion HF as [|? ? [t [c [ci [-> Hs]]]] Hrest]; subst.
+  destruct (modify_step t c ci s HJ Hs) as [s1 [E1 [HJ1 Hp]]]. rewrite E1. cbn [bind].
+  apply IH; [exact HJ1|]. eapply Forall_impl; [|exact Hrest]. cbn beta. intros a [t' [c' [ci' [-> Hs']]]].
+  exists t', c', ci'. split; [reflexivity|apply Hp; exact Hs'].
+Qed.
+
+Lemma add_column_schema_has : forall t c ci s s' t' c',
+  tds_apply (AddColumn t c ci) s = Ok s' -> schema_has t' c' s = true -> schema_has t' c' s' = true.
+Proof.
+  intros t c ci s s' t' c' H Hs. cbn [tds_apply schema_step data_step] in H.
+  destruct (lookup t (t_schema s)) as [sc|] eqn:Es; [|discriminate].
+  apply bind_ok in H. destruct H as [sch' [H1 H]]. apply bind_ok in H1. destruct H1 as [d [_ H1]]. injection H1 as <-.
+  apply bind_ok in H. destruct H as [d' [_ H]]. injection H as <-.
+  unfold schema_has in *. cbn [t_schema]. rewrite lookup_dset_cases. destruct (seqb t' t) eqn:Q; [|exact Hs].
+  apply seqb_eq in Q. subst t'. rewrite Es in Hs. apply has_dset. exact Hs.
+Qed.
+
+Lemma pre28_sound : forall s, pre28 s = true -> exists acts s', m28 s = Ok acts /\ tds_apply_all acts s = Ok s' /\ J s'.
+Proof.
+  intros s H. unfold pre28 in H. split_pre H. pose proof (J_b_sound _ H) as HJ.
+  pose proof (has_table_b_sound _ _ P2) as Ha. pose proof (has_table_b_sound _ _ P1) as Ht. pose proof (has_table_b_sound _ _ P0) as Hc.
+  unfold m28. rewrite (table_records_ok _ _ Ht), (table_records_ok _ _ Hc). cbn [bind].
+  match goal with |- exists acts s', bind ?A _ = _ /\ _ =>
+    assert (Hl : exists l, A = Ok l /\ Forall (modifies_known s) (concat l)) end.
+  { assert (Hpair : forall t c, pair_pre28 s t c = true -> exists r, m28_pair t c = Ok r /\ Forall (modifies_known s) r).
+    { intros t c Q. unfold pair_pre28 in Q. unfold m28_pair.
+      destruct (fld (zs "parentId") c) as [p|]; [|discriminate Q]. cbn [bind].
+      destruct (negb (py_eq (rid_val (fst t)) p)); [exists []; split; [reflexivity|constructor]|].
+      destruct (fld (zs "type") c) as [ty|]; [|discriminate Q]. cbn [bind].
+      destruct (negb (py_eq ty (VStr (zs "Attachments")))); [exists []; split; [reflexivity|constructor]|].
+      destruct (fld (zs "tableId") t) as [tn|]; [|discriminate Q]. destruct tn; try discriminate Q.
+      destruct (fld (zs "colId") c) as [cn|]; [|discriminate Q]. destruct cn; try discriminate Q. cbn [bind as_str].
+      eexists. split; [reflexivity|]. constructor; [|constructor]. eexists _, _, _. split; [reflexivity|exact Q]. }
+    assert (G : forall ts, forallb (fun t => forallb (pair_pre28 s t) (recs T_COLUMNS s)) ts = true ->
+                exists l, mapM (fun t => bind (mapM (m28_pair t) (recs T_COLUMNS s)) (fun l0 => Ok (concat l0))) ts = Ok l /\
+                          Forall (modifies_known s) (concat l)).
+    { induction ts as [|t ts IH]; intros Hts; cbn [mapM]; [exists []; split; [reflexivity|constructor]|].
+      cbn in Hts. apply andb_prop in Hts. destruct Hts as [Hrow Hrest].
+      assert (R : forall cs, forallb (pair_pre28 s t) cs = true ->
+                  exists l0, mapM (m28_pair t) cs = Ok l0 /\ Forall (modifies_known s) (concat l0)).
+      { induction cs as [|c cs IHc]; intros Hcs; cbn [mapM]; [exists []; split; [reflexivity|constructor]|].
+        cbn in Hcs. apply andb_prop in Hcs. destruct Hcs as [Hc1 Hc2].
+        destruct (Hpair t c Hc1) as [r [-> Hr]]. cbn [bind]. destruct (IHc Hc2) as [l0 [-> Hl0]]. cbn [bind].
+        eexists. split; [reflexivity|]. cbn. apply Forall_app. split; assumption. }
+      destruct (R _ Hrow) as [l0 [-> Hl0]]. cbn [bind]. destruct (IH Hrest) as [l [-> Hl]]. cbn [bind].
+      eexists. split; [reflexivity|]. cbn. apply Forall_app. split; assumption. }
+    apply G. exact P. }
+  destruct Hl as [l [-> Hmods]]. cbn [bind].
+  destruct (add_column_good T_ATTACHMENTS (zs "timeDeleted") (mkci (zs "timeDeleted") (zs "DateTime") false []) s HJ Ha (mkci_typed _ _ _ _))
+    as [s1 [E1 [HJ1 _]]].
+  destruct (modify_all (concat l) s1 HJ1) as [s2 [E2 HJ2]].
+  { eapply Forall_impl; [|exact Hmods]. cbn beta. intros a [t [c [ci [-> Hs]]]]. exists t, c, ci. split; [reflexivity|].
+    eapply add_column_schema_has; [exact E1|exact Hs]. }
+  eexists. exists s2. split; [reflexivity|]. cbn [tds_apply_all]. unfold add_column. rewrite E1. cbn [bind]. auto.
+Qed.
